@@ -1493,3 +1493,43 @@ func pinName(fn *ssa.Function) string {
 	}
 	return t.pinned("func", pk.Path(), "", fn.Name())
 }
+
+// nilResultImplies: on every feasible path of h whose (last) result can be nil, pred holds. A result that is one of h's
+// parameters is nil only if that parameter is: paths that observed the parameter non-nil are then infeasible.
+func nilResultImplies(h *ssa.Function, pred func(*Path) bool) bool {
+	if h == nil || h.Blocks == nil {
+		return false
+	}
+	paths, overflow := enumPaths(h)
+	if overflow || len(paths) == 0 {
+		return false
+	}
+	n := 0
+	for _, path := range paths {
+		ret := path.Ret()
+		if path.Panics || ret == nil || len(ret.Results) == 0 {
+			continue
+		}
+		v := resolveCell(path.evalEnd(ret.Results[len(ret.Results)-1]))
+		if path.nilness(v) == "nonnil" {
+			continue
+		}
+		if q, isPrm := v.(*ssa.Parameter); isPrm {
+			infeasible := false
+			for _, l := range path.Lits {
+				if x, eq, ok := l.nilTest(); ok && !eq && resolveCell(path.eval(x, l.At)) == ssa.Value(q) {
+					infeasible = true
+				}
+			}
+			if infeasible {
+				continue
+			}
+			// assuming q == nil, a short-circuit `q == nil && c` that came out false did so because of c
+		}
+		n++
+		if !pred(path) {
+			return false
+		}
+	}
+	return n > 0
+}
